@@ -227,7 +227,7 @@ pub fn gen(rng: &mut Rng, thorough: bool, sink: &mut Sink) {
     for idx in [0i64, 7, 8, 131071] { sink.case(vec![4, lp, ep, idm, idx, setbit, mode, has, parses], "validator-table"); }
   } } } } } } }
   // (c) constructor sizes
-  for n in [0i64, 1, 131071, 131072, 131073, 131079, 131080, 131081, 1 << 20, (1 << 20) + 1, (1 << 20) + 9, 1 << 21, 3_000_001] { sink.case(vec![2, n, 1, n - 1, 1, n, 1, n + 7, 1, n + 8, 0, n - 1, 1, 0, n + 8, 1], "sizes"); }
+  for n in [0i64, 1, 131071, 131072, 131073, 131079, 131080, 131081, 1 << 20, (1 << 20) + 1, (1 << 20) + 9, 1 << 21, 3_000_001, (8 << 20) - 8, 8 << 20, (8 << 20) + 1, (8 << 20) + 9, 10_000_001, 1 << 24] { sink.case(vec![2, n, 1, n - 1, 1, n, 1, n + 7, 1, n + 8, 0, n - 1, 1, 0, n + 8, 1], "sizes"); }
   // (d) write sequences clustered inside bytes and at both ends
   let nseq = if thorough { 6000 } else { 600 };
   for k in 0..nseq {
@@ -245,9 +245,10 @@ pub fn gen(rng: &mut Rng, thorough: bool, sink: &mut Sink) {
   }
   // (e) credential-level histories, both purposes, both public write routes
   let ncred = if thorough { 2500 } else { 250 };
-  for _ in 0..ncred {
+  for kc in 0..ncred {
     let p = rng.range(0, 1);
-    let n = *rng.pick(&[131072i64, 131073, 131081]);
+    // two histories per run on a list above 1 MiB (every credential write decodes and re-encodes the whole list)
+    let n = if kc < 2 { (8i64 << 20) + 9 } else { *rng.pick(&[131072i64, 131073, 131081]) };
     let len = ((n + 7) / 8) * 8;
     let rb = rng.range(0, len / 8 - 2) * 8;
     let base = *rng.pick(&[0, len - 16, rb]);
